@@ -10,7 +10,7 @@ fn f(role: u8, t: &OwnedTerm) -> String {
     format!("{}={}", role, term_str(t))
 }
 
-fn show(m: &M) -> String {
+pub fn show(m: &M) -> String {
     let (tag, fields): (u8, Vec<String>) = match m {
         M::Link { from_pid, to_pid } => (T::Link as u8, vec![f(1, from_pid), f(2, to_pid)]),
         M::Send { cookie, to_pid } => (T::Send as u8, vec![f(4, cookie), f(2, to_pid)]),
